@@ -1,6 +1,6 @@
 (* Props/C13.v — property C13: hash256 is a structural fingerprint, computed as real SHA-256.
-   Statements only; proofs in Proofs/Sha256.v, Proofs/C13.v. *)
-From Beff Require Import Model.Hash256Enc Proofs.Sha256 Proofs.C13.
+   Statements only; proofs in Proofs/Sha256.v, Proofs/C13.v, Proofs/C13Bytes.v, Proofs/C13Inj.v. *)
+From Beff Require Import Model.Hash256Enc Model.Validate Proofs.Sha256 Proofs.C13 Proofs.C13Bytes Proofs.C13Inj.
 From Coq Require Import Sorting.Permutation.
 
 (* ---- the digest routine: for every sequence of writes (every chunking, every block boundary, both padding
@@ -80,9 +80,92 @@ Proof.
   rewrite (H c13_env 20 "U" "L" h1 h2 eq_refl H1 H2) in Hne. rewrite String.eqb_refl in Hne. discriminate.
 Qed.
 
+(* ---- "two validators that disagree on any value have different digests", up to a SHA-256 collision ----
+   The fragment `hfr env rank n` (Proofs/C13Inj.v): every tree whose named references descend along a rank function (`env_okb`:
+   no recursion, hence no cycle ids; the root's references have rank below n) and which contains no template-literal pattern
+   (RRegex: the pattern is not written, only its description); strings shorter than 2^32 bytes (the width of the length prefix),
+   property / mapping keys without repetition, non-integral number literals written as such.
+   For all such trees and environments, all fuels at which the encoder and the two validations answer, every registered-format
+   table, both modes and every value: if the byte strings fed to SHA-256 are equal, the validators give the same answer. *)
+Theorem C13_equal_streams_accept_the_same_values :
+  forall (F : formats) (env : renv) (rank : string -> nat) (f1 f2 n1 n2 : nat) (r1 r2 : rt) (ws1 ws2 : list (list byte)),
+    env_okb env rank = true -> hfr env rank n1 r1 = true -> hfr env rank n2 r2 = true ->
+    hash256_writes env f1 r1 = Ok ws1 -> hash256_writes env f2 r2 = Ok ws2 ->
+    List.concat ws1 = List.concat ws2 ->
+    forall fv1 fv2 strict v b1 b2,
+      validate F env fv1 strict r1 v = Ok b1 -> validate F env fv2 strict r2 v = Ok b2 -> b1 = b2.
+Proof.
+  intros F env rank f1 f2 n1 n2 r1 r2 ws1 ws2 He H1 H2 E1 E2 H fv1 fv2 strict v.
+  exact (writes_determine_behaviour F env rank (env_okb_sound env rank He) f1 f2 n1 n2 r1 r2 ws1 ws2 H1 H2 E1 E2 H fv1 fv2 strict v).
+Qed.
+
+(* the contrapositive, down to the digests: validators that disagree on one value are the SHA-256 images of two different
+   byte strings (so equal digests would be a collision of SHA-256 itself) *)
+Theorem C13_disagreeing_validators_are_hashed_from_different_bytes :
+  forall (F : formats) (env : renv) (rank : string -> nat) (f1 f2 n1 n2 : nat) (r1 r2 : rt) (h1 h2 : string),
+    env_okb env rank = true -> hfr env rank n1 r1 = true -> hfr env rank n2 r2 = true ->
+    hash256_hex env f1 r1 = Ok h1 -> hash256_hex env f2 r2 = Ok h2 ->
+    forall fv1 fv2 strict v b1 b2,
+      validate F env fv1 strict r1 v = Ok b1 -> validate F env fv2 strict r2 v = Ok b2 -> b1 <> b2 ->
+      exists m1 m2 : list byte,
+        m1 <> m2 /\ h1 = hex_words (sha256_words K_fips H0_fips m1) /\ h2 = hex_words (sha256_words K_fips H0_fips m2).
+Proof.
+  intros F env rank f1 f2 n1 n2 r1 r2 h1 h2 He Hf1 Hf2 E1 E2 fv1 fv2 strict v b1 b2 V1 V2 Hne.
+  destruct (hash256_is_sha256_of_encoding _ _ _ _ E1) as [ws1 [W1 ->]].
+  destruct (hash256_is_sha256_of_encoding _ _ _ _ E2) as [ws2 [W2 ->]].
+  exists (List.concat ws1), (List.concat ws2). split; [|split; reflexivity].
+  intros Heq. apply Hne.
+  exact (writes_determine_behaviour F env rank (env_okb_sound env rank He) f1 f2 n1 n2 r1 r2 ws1 ws2 Hf1 Hf2 W1 W2 Heq
+           fv1 fv2 strict v b1 b2 V1 V2).
+Qed.
+
+(* the framing is a prefix code: what was written in front of anything can be read back *)
+Theorem C13_framing_is_a_prefix_code :
+  (forall a b x y, small a = true -> small b = true ->
+     List.concat (w_tag a) ++ x = List.concat (w_tag b) ++ y -> a = b /\ x = y) /\
+  (forall a b x y, small a = true -> small b = true ->
+     List.concat (w_string a) ++ x = List.concat (w_string b) ++ y -> a = b /\ x = y) /\
+  (forall n m x y, num_ok n = true -> num_ok m = true ->
+     List.concat (w_number n) ++ x = List.concat (w_number m) ++ y -> n = m /\ x = y) /\
+  (forall a b x y, List.concat (w_bool a) ++ x = List.concat (w_bool b) ++ y -> a = b /\ x = y).
+Proof. split; [exact tag_inj|split; [exact string_inj|split; [exact number_inj|exact bool_inj]]]. Qed.
+
+(* non-vacuity: a tree using every construct of the fragment (named types included) is in it and is encoded; making one
+   property required changes the byte string; and the boundary of the fragment is real on the model: a non-integral literal
+   spelt like an integer (which no compiled module contains) is written like the integer *)
+Definition c13_frag_env : renv :=
+  [("Leaf", RObject [("kind", RConst (CStr "p")); ("w", RTypedArray "Uint8Array")] []);
+   ("Pair", RTuple [RRef "Leaf"; RMeta "second" (RRef "Leaf")] None)].
+Definition c13_frag_rank (s : string) : nat := if String.eqb s "Pair" then 1 else 0.
+Definition c13_frag_tree (opt : bool) : rt :=
+  RMeta "doc"
+    (RObject [("b", if opt then ROptional (RAnyOfConsts [CNum (NInt 1); CStr "x"; CNull]) else RAnyOfConsts [CNum (NInt 1); CStr "x"; CNull]);
+              ("a", RTuple [RTypeof TyNumber; RConst (CNum (NDec "1.5"))] (Some (RTypeof TyBoolean)));
+              ("u", RDisc [] "kind" [("p", RRef "Leaf"); ("q", RObject [("kind", RConst (CStr "q"))] [])] []);
+              ("n", RRef "Pair");
+              ("m", RAnyOf [RMap (RTypeof TyString) RDate; RSet RBigInt; RArray (RStringFmt ["f"; "e"]); RAllOf [RAny; RNever]; RNullish "void"])]
+             [(RTypeof TyString, RTypedArray "Uint8Array")]).
+Example C13_injectivity_nonvacuous :
+  env_okb c13_frag_env c13_frag_rank = true /\
+  hfr c13_frag_env c13_frag_rank 2 (c13_frag_tree true) = true /\ hfr c13_frag_env c13_frag_rank 2 (c13_frag_tree false) = true /\
+  (exists ws1 ws2, hash256_writes c13_frag_env 20 (c13_frag_tree true) = Ok ws1 /\
+                   hash256_writes c13_frag_env 20 (c13_frag_tree false) = Ok ws2 /\ List.concat ws1 <> List.concat ws2) /\
+  (exists ws, hash256_writes [] 5 (RConst (CNum (NDec "5"))) = Ok ws /\ hash256_writes [] 5 (RConst (CNum (NInt 5))) = Ok ws) /\
+  hfr [] (fun _ => 0) 1 (RConst (CNum (NDec "5"))) = false.
+Proof.
+  split; [vm_compute; reflexivity|]. split; [vm_compute; reflexivity|]. split; [vm_compute; reflexivity|]. split.
+  - eexists. eexists. split; [vm_compute; reflexivity|]. split; [vm_compute; reflexivity|].
+    vm_compute. discriminate.
+  - split; [|vm_compute; reflexivity]. eexists. split; vm_compute; reflexivity.
+Qed.
+
 Print Assumptions C13_writer_is_sha256.
 Print Assumptions C13_hash256_is_sha256_of_encoding.
 Print Assumptions C13_property_order.
 Print Assumptions C13_mapping_order.
 Print Assumptions C13_hash32_property_order.
 Print Assumptions C13_refuted_alias.
+Print Assumptions C13_equal_streams_accept_the_same_values.
+Print Assumptions C13_disagreeing_validators_are_hashed_from_different_bytes.
+Print Assumptions C13_framing_is_a_prefix_code.
+Print Assumptions C13_injectivity_nonvacuous.
